@@ -219,8 +219,12 @@ func VerifCheck_entry() {
 	}
 	// the match sequence as seen by iteration, find-all (runes and bytes), ReplaceFunc and Split
 	var seq [][2]int
+	var seqG1 []string // text of the first group of every match of the sequence (for the Replace leg below)
 	for m := mr; m != nil; {
 		seq = append(seq, [2]int{m.RuneIndex, m.RuneLength})
+		if gs := m.Groups(); len(gs) > 1 {
+			seqG1 = append(seqG1, gs[1].String())
+		}
 		if len(seq) > len(rs)+2 {
 			verifFail("iteration-does-not-terminate", "")
 		}
@@ -310,6 +314,27 @@ func VerifCheck_entry() {
 		verifNote(got)
 		verifNote(want)
 		verifAssert("Replace-after-bool==first-match-captures", got == want)
+		// ... and over the whole match sequence: every match replaced by [text of its first group]
+		if len(seqG1) == len(seq) {
+			all, err := re.Replace(s, "[$"+strconv.Itoa(nums[1])+"]", -1, -1)
+			if err != nil {
+				verifFail("error-replace", err.Error())
+			}
+			ord := make([]int, len(seq))
+			for i := range ord {
+				ord[i] = i
+				if re.RightToLeft() {
+					ord[i] = len(seq) - 1 - i // the sequence was found from the right; rebuild left to right
+				}
+			}
+			wantAll, prev := "", 0
+			for _, i := range ord {
+				wantAll += string(rs[prev:seq[i][0]]) + "[" + seqG1[i] + "]"
+				prev = seq[i][0] + seq[i][1]
+			}
+			wantAll += string(rs[prev:])
+			verifAssert("Replace==fold-of-match-sequence-captures", all == wantAll)
+		}
 	}
 	verifReach("end")
 }
